@@ -20,10 +20,12 @@ MANIFEST = {
             'second is rejected, and over all interleavings of passes, results, heartbeats, integrity checks every '
             'action accepts at most one result and every task is completed at most once (induction over event '
             'lists); a task that is stuck and examined is completed by the integrity check, a task that is not stuck '
-            'is untouched, the check reschedules itself unless disabled or the workflow is finished. Three full '
-            'statements are FALSE of the code and kept as *_full_fails with witnesses replayed on the real engine '
-            '(task-less actions never expired; an action with a deleted definition poisons every pass; the integrity '
-            'check only examines the first batch_size RUNNING tasks).',
+            'is untouched, the check reschedules itself unless disabled or the workflow is finished. a pass never aborts and every expired '
+            'action that is not itself broken (parent rows gone / definition deleted) is failed whatever else the '
+            'batch contains, including task-less actions (true since /repo 2fdf7f9f; the former counter-witnesses '
+            'are regressions of the stream). One full statement is FALSE of the code and kept as *_full_fails with '
+            'its witness replayed on the real engine (the integrity check only examines the first batch_size '
+            'RUNNING tasks).',
     'note': 'one Event = one committed transaction (in-process atomicity); sub-transaction races between several '
             'engines on a real RDBMS are not exhibited; workflow-level error handling (on-error / retry / workflow '
             'state) is checked by the monitors on the real engine, not proved; SQLAlchemy/sqlite, oslo.config and '
